@@ -420,3 +420,84 @@ func assignedVar(p *Prog, info *types.Info, call *ast.CallExpr) *types.Var {
 	}
 	return nil
 }
+
+// ---------- R-DRAIN/lines: every scanned stdout line is handed over, unmodified ----------
+
+// ruleStdoutLines — the goroutine of Start that scans the plugin's stdout
+// sends *every* scanned line, as returned by Scanner.Text(), to the line
+// channel: from the true edge of Scan() every path back to Scan() passes the
+// send. (The handshake parser works on the first line received; a producer
+// that filters or rewrites lines makes it work on some other line.)
+func ruleStdoutLines(c *Ctx) {
+	p := c.P
+	f := p.Fn("Client.Start")
+	if f == nil {
+		c.R.Undecided("R-DRAIN/lines", "Client.Start", "anchor", "function not found")
+		return
+	}
+	ci := p.Calls()
+	found := false
+	for _, cs := range ci.sites[f] {
+		if cs.Kind != "go" || len(cs.Callees) != 1 || cs.Callees[0].Lit == nil {
+			continue
+		}
+		lf := cs.Callees[0]
+		info := lf.Pkg.TypesInfo
+		g := p.Graph(lf)
+		var scanN *Node
+		var scanner types.Object
+		for _, call := range lf.Calls() {
+			if p.CalleeName(lf, call) == "bufio.Scanner.Scan" {
+				scanN = g.NodeOf(call)
+				if se, ok := call.Fun.(*ast.SelectorExpr); ok {
+					scanner = identObj(info, se.X)
+				}
+			}
+		}
+		if scanN == nil || scanner == nil {
+			continue
+		}
+		found = true
+		isSend := func(m *Node) bool {
+			ss, ok := m.Ast.(*ast.SendStmt)
+			if !ok {
+				return false
+			}
+			ch, isCh := info.TypeOf(ss.Chan).Underlying().(*types.Chan)
+			if !isCh || !types.Identical(ch.Elem(), types.Typ[types.String]) {
+				return false
+			}
+			val, ok := ast.Unparen(p.Deref(lf, ss.Value)).(*ast.CallExpr)
+			if !ok || p.CalleeName(lf, val) != "bufio.Scanner.Text" {
+				return false
+			}
+			se, ok := val.Fun.(*ast.SelectorExpr)
+			return ok && identObj(info, se.X) == scanner
+		}
+		ok := true
+		var path []string
+		for _, e := range scanN.Succs {
+			at, isAt := edgeAtom(info, e)
+			if !isAt || !(at.Kind == "call" && at.True) {
+				continue
+			}
+			seen := g.Reach([]*Node{e.To}, isSend, nil)
+			if _, back := seen[scanN]; back {
+				ok = false
+				path = p.PathTo(seen, scanN)
+			}
+			if _, out := seen[g.Exit]; out {
+				ok = false
+				path = p.PathTo(seen, g.Exit)
+			}
+		}
+		if ok {
+			c.R.Hold("R-DRAIN/lines", p.Pos(scanN.Ast), lf.Name, "every scanned stdout line is sent on", "from Scan()==true every path back to Scan() sends Scanner.Text() on the line channel", true)
+		} else {
+			c.R.Violate("R-DRAIN/lines", p.Pos(scanN.Ast), lf.Name, "every scanned stdout line is sent on", "a scanned line can be skipped or rewritten before it is handed to Start: the handshake is then parsed from a line that is not the plugin's first line", path)
+		}
+	}
+	if !found {
+		c.R.Undecided("R-DRAIN/lines", f.Name, "anchor", "no goroutine scanning stdout with bufio.Scanner found in Start")
+	}
+}
